@@ -21,7 +21,11 @@ Section FetchProofs.
                x = URLFetchingError (e_name e ++ ": " ++ e_msg e)%string) \/
     (exists e, fetcher url = FRaise e /\ e_is_exception e = false /\ x = Raised e) \/
     (fetcher url = FNotDict /\ x = AttributeError "setdefault") \/
-    (exists d, fetcher url = FDict d /\ fst (body (setdefaults url d)) = Exc x).
+    (exists d, fetcher url = FDict d /\
+       match d_file d with
+       | Some _ => convert_stream_error (fst (body (setdefaults url d))) = Exc x
+       | None => fst (body (setdefaults url d)) = Exc x
+       end).
   Proof.
     unfold fetch. destruct (fetcher url) as [e| |d] eqn:Hf.
     - destruct (e_is_exception e) eqn:He; simpl; intros H; inversion H; subst.
@@ -29,15 +33,16 @@ Section FetchProofs.
       + right. left. exists e. auto.
     - simpl. intros H. inversion H. right. right. left. auto.
     - destruct (body (setdefaults url d)) as [r ev] eqn:Hb.
-      destruct (d_file (setdefaults url d)); simpl; intros H; subst;
-        right; right; right; exists d; rewrite Hb; auto.
+      change (d_file (setdefaults url d)) with (d_file d).
+      destruct (d_file d) eqn:Hfile; simpl; intros H; right; right; right; exists d;
+        rewrite Hfile, Hb; auto.
   Qed.
 
   (* file_obj is closed exactly once, after everything the body did, whatever the body's outcome *)
   Lemma fetch_closes_file_obj (A : Type) url (body : fdict -> outcome A * list event) d f :
     fetcher url = FDict d -> d_file d = Some f ->
     fetch fetcher url body =
-      (fst (body (setdefaults url d)),
+      (convert_stream_error (fst (body (setdefaults url d))),
        Called url :: snd (body (setdefaults url d)) ++ Closed (fo_id f) ::
          (if fo_close_raises f then [CloseWarning url] else [])).
   Proof.
@@ -84,14 +89,21 @@ Section FetchProofs.
       simpl; intros H; try discriminate; eauto.
   Qed.
 
-  (* graceful: an Exception raised by the call, or an answer carrying data, never escapes a consumer, and
-     "treated as absent" always comes with a log record *)
+  (* a stream whose read() fails with one of the converted stream errors *)
+  Definition dies_with_io (d : fdict) : bool :=
+    match d_string d, d_file d with
+    | None, Some f => match fo_read f with ReadRaises e => e_is_io e | ReadOk _ => false end
+    | _, _ => false
+    end.
+
+  (* graceful: an Exception raised by the call, an answer carrying data, or a stream that dies with an I/O,
+     HTTP or decompression error never escapes a consumer, and "treated as absent" always comes with a log *)
   Lemma consume_graceful c url :
     (exists e, fetcher url = FRaise e /\ e_is_exception e = true) \/
-    (exists d, fetcher url = FDict d /\ has_data d = true) ->
+    (exists d, fetcher url = FDict d /\ (has_data d = true \/ dies_with_io d = true)) ->
     exists v ev logs, consume fetcher c url = (Val v, ev, logs) /\ (v = None -> logs <> []).
   Proof.
-    intros [[e [Hf He]]|[d [Hf Hd]]]; unfold consume, fetch; rewrite Hf.
+    intros [[e [Hf He]]|[d [Hf [Hd|Hd]]]]; unfold consume, fetch; rewrite Hf.
     - rewrite He. simpl.
       destruct c; simpl; eexists; eexists; eexists; split; try reflexivity; intros _; discriminate.
     - assert (Hd' : has_data (setdefaults url d) = true) by exact Hd.
@@ -102,25 +114,36 @@ Section FetchProofs.
         destruct (read_payload (setdefaults url d)) as [r ev] eqn:Hr. simpl in Hs. subst r.
         destruct (d_file (setdefaults url d)); simpl;
           eexists; eexists; eexists; split; try reflexivity; intros H; discriminate.
+    - unfold dies_with_io in Hd. unfold read_payload.
+      change (d_string (setdefaults url d)) with (d_string d).
+      change (d_file (setdefaults url d)) with (d_file d).
+      destruct (d_string d); [discriminate|]. destruct (d_file d) as [f|]; [|discriminate].
+      destruct (fo_read f) as [s|e]; [discriminate|].
+      destruct (checks_css_mime c && negb (is_css (mime_value (setdefaults url d)))).
+      + simpl. eexists; eexists; eexists; split; try reflexivity; intros _; discriminate.
+      + destruct c; simpl; try (destruct (e_name e =? "StopIteration")); simpl; rewrite ?Hd; simpl;
+          eexists; eexists; eexists; split; try reflexivity; intros H; discriminate.
   Qed.
 
   (* exactly what escapes: (1) a BaseException outside Exception, always; and for every consumer but the
      font one (2) the AttributeError of a non-dict answer, (3) the KeyError of an answer without data,
-     (4) whatever file_obj.read() raises.  Nothing else. *)
+     (4) what file_obj.read() raises when it is not one of the converted stream errors.  Nothing else. *)
   Lemma consume_escape_cases c url x ev logs :
     consume fetcher c url = (Exc x, ev, logs) ->
     (exists e, fetcher url = FRaise e /\ e_is_exception e = false /\ x = Raised e) \/
-    (c <> CFontSrc /\ fetcher url = FNotDict /\ x = AttributeError "setdefault") \/
-    (c <> CFontSrc /\ exists d, fetcher url = FDict d /\ d_string d = None /\ d_file d = None /\
-                                x = KeyError "file_obj") \/
+    (catches c (AttributeError "setdefault") = false /\ fetcher url = FNotDict /\
+       x = AttributeError "setdefault") \/
+    (catches c (KeyError "file_obj") = false /\
+       exists d, fetcher url = FDict d /\ d_string d = None /\ d_file d = None /\ x = KeyError "file_obj") \/
     (exists d f e, fetcher url = FDict d /\ d_string d = None /\ d_file d = Some f /\
-                   fo_read f = ReadRaises e /\ x = Raised e /\ (c = CFontSrc -> e_is_exception e = false)).
+                   fo_read f = ReadRaises e /\ x = Raised e /\ e_is_io e = false /\
+                   catches c (Raised e) = false).
   Proof.
     unfold consume, fetch. destruct (fetcher url) as [e| |d] eqn:Hf.
     - destruct (e_is_exception e) eqn:He.
       + destruct c; simpl; intros H; inversion H.
       + destruct c; simpl; try rewrite He; intros H; inversion H; subst; left; exists e; auto.
-    - destruct c; simpl; intros H; inversion H; subst; right; left; repeat split; auto; discriminate.
+    - destruct c; simpl; intros H; inversion H; subst; right; left; repeat split; auto.
     - assert (Hs : d_string (setdefaults url d) = d_string d) by reflexivity.
       assert (Hfl : d_file (setdefaults url d) = d_file d) by reflexivity.
       destruct (checks_css_mime c && negb (is_css (mime_value (setdefaults url d)))) eqn:Hc.
@@ -131,37 +154,57 @@ Section FetchProofs.
         * destruct (d_file d) as [f|] eqn:Hfile.
           -- destruct (fo_read f) as [s|e] eqn:Hrd.
              ++ simpl. intros H; inversion H.
-             ++ simpl. destruct c; simpl; try (destruct (e_is_exception e) eqn:He; simpl);
-                  try (destruct (e_name e =? "StopIteration") eqn:Hn; simpl);
-                  intros H; inversion H; subst;
-                  right; right; right; exists d, f, e; repeat split; auto; try discriminate.
+             ++ destruct (e_is_io e) eqn:Hio.
+                ** destruct c; simpl; try (destruct (e_name e =? "StopIteration") eqn:Hn; simpl);
+                     rewrite ?Hio; simpl; intros H; inversion H.
+                ** destruct c; simpl; try (destruct (e_name e =? "StopIteration") eqn:Hn; simpl);
+                     rewrite ?Hio; simpl; try (destruct (e_is_exception e) eqn:He; simpl);
+                     intros H; inversion H; subst;
+                     right; right; right; exists d, f, e; repeat split; auto.
           -- simpl. destruct c; simpl; intros H; inversion H; subst;
-               right; right; left; (split; [discriminate|]); exists d; auto.
+               right; right; left; (split; [reflexivity|]); exists d; auto.
+  Qed.
+
+  (* REPAIRED (was the refuted statement of finding fetch-body-read-error-escapes): a stream that dies with
+     a time-out, a reset, a truncated gzip body... is a fetching error for every consumer: the resource is
+     skipped, the failure logged, the stream closed *)
+  Lemma read_io_error_is_fetching_error c url d f e :
+    fetcher url = FDict d -> d_string d = None -> d_file d = Some f -> fo_read f = ReadRaises e ->
+    e_is_io e = true -> e_name e <> "StopIteration" ->
+    exists ev logs, consume fetcher c url = (Val None, ev, logs) /\ logs <> [] /\ In (Closed (fo_id f)) ev.
+  Proof.
+    intros Hf Hs Hfile Hr Hio Hname. apply String.eqb_neq in Hname. unfold consume, fetch, read_payload. rewrite Hf.
+    change (d_string (setdefaults url d)) with (d_string d).
+    change (d_file (setdefaults url d)) with (d_file d).
+    rewrite Hs, Hfile, Hr.
+    destruct (checks_css_mime c && negb (is_css (mime_value (setdefaults url d)))).
+    - simpl. eexists; eexists; split; [reflexivity|]. split; [discriminate|]. simpl. auto.
+    - destruct c; simpl; rewrite ?Hname; simpl; rewrite Hio; simpl;
+        (eexists; eexists; split; [reflexivity|]; split; [discriminate|]; simpl; auto).
   Qed.
 
 End FetchProofs.
 
-(* The planned statement "every failure of a fetch becomes URLFetchingError / is skipped and logged" is false
-   for the body of the answer: an Exception raised by file_obj.read() (a time-out or a reset connection in
-   the middle of the body, a truncated gzip stream) escapes get_image_from_uri - and find_stylesheets,
-   @import, write_pdf_attachment - and ends the whole render.  Witness replayed on the implementation by the
-   consume-direct stream (signature fetch-body-read-error-escapes). *)
-Definition timeout_exn : exn := {| e_name := "TimeoutError"; e_msg := "mid-body"; e_is_exception := true |}.
-Definition dying_stream : fret :=
+(* STILL REFUTED after the repair (residual of fetch-body-read-error-escapes): the conversion covers EOFError,
+   HTTPException, OSError and zlib.error only; any other Exception raised by file_obj.read() - a ValueError
+   ("I/O operation on closed file"), the ProtocolError of a urllib3 stream - still escapes the image, sheet and
+   attachment consumers and ends the render.  Witness replayed on the implementation by consume-direct. *)
+Definition value_error : exn :=
+  {| e_name := "ValueError"; e_msg := "I/O operation on closed file"; e_is_exception := true; e_is_io := false |}.
+Definition odd_stream : fret :=
   FDict {| d_string := None;
-           d_file := Some {| fo_id := 1; fo_read := ReadRaises timeout_exn; fo_close_raises := false |};
+           d_file := Some {| fo_id := 1; fo_read := ReadRaises value_error; fo_close_raises := false |};
            d_mime := Some (Some "image/png"); d_redirected := None |}.
 
-Lemma read_error_escapes_refuted :
+Lemma read_other_error_escapes_refuted :
   exists (fetcher : string -> fret) (url : string) (e : exn),
     e_is_exception e = true /\
-    (forall c, c <> CFontSrc -> c <> CLinkSheet ->
+    (forall c, catches c (Raised e) = false -> c <> CLinkSheet ->
                exists ev, consume fetcher c url = (Exc (Raised e), ev, [])) /\
-    (* the stream is closed all the same *)
     (exists ev, consume fetcher CImage url = (Exc (Raised e), ev, []) /\ In (Closed 1) ev).
 Proof.
-  exists (fun _ => dying_stream), "http://x/a.png", timeout_exn. split; [reflexivity|]. split.
-  - intros c Hf Hl. destruct c; try contradiction; eexists; reflexivity.
+  exists (fun _ => odd_stream), "http://x/a.png", value_error. split; [reflexivity|]. split.
+  - intros c Hc Hl. destruct c; try contradiction; try discriminate; eexists; reflexivity.
   - eexists. split; [reflexivity|]. simpl. auto.
 Qed.
 
@@ -171,7 +214,8 @@ Example fetch_example :
                    FDict {| d_string := None;
                             d_file := Some {| fo_id := 7; fo_read := ReadOk "PNG"; fo_close_raises := true |};
                             d_mime := None; d_redirected := None |}
-                 else FRaise {| e_name := "OSError"; e_msg := "no route"; e_is_exception := true |} in
+                 else FRaise {| e_name := "OSError"; e_msg := "no route"; e_is_exception := true;
+                                e_is_io := true |} in
   consume fetcher CImage "http://x/ok" =
     (Val (Some ("PNG", None)), [Called "http://x/ok"; ReadEv 7; Closed 7; CloseWarning "http://x/ok"], []) /\
   consume fetcher CImage "http://x/ko" =
